@@ -486,7 +486,10 @@ func (b *builder) importItem(k kind, prefix []string) {
 	alias := segs[len(segs)-1]
 	text := strings.Join(segs, "\\")
 	if b.chance(1, 2, "as") {
-		alias = segPool[b.intn(len(segPool), "aliasname")] + fmt.Sprint(b.intn(3, "aliasn"))
+		alias = b.seg("aliasname")
+		if !b.bareAlias || b.chance(1, 3, "aliasdigit") {
+			alias += fmt.Sprint(b.intn(3, "aliasn"))
+		}
 		text += " " + b.vary("as") + " " + alias
 		b.feats["import:alias"]++
 	}
